@@ -64,8 +64,11 @@ class Compiler:
                 if len(placeholders) != len(parameters):
                     raise ProgrammingError(
                         f'the query has {len(placeholders)} placeholders but {len(parameters)} parameters were passed')
-                for i, placeholder in enumerate(sorted(placeholders, key=lambda node: node.parseinfo.pos)):
-                    placeholder.name = i
+                # Number the positional placeholders in textual order. The numbering is kept
+                # here and not on the AST nodes: the parsed statement can be executed again.
+                self.positional = {
+                    id(placeholder): i
+                    for i, placeholder in enumerate(sorted(placeholders, key=lambda node: node.parseinfo.pos))}
             else:
                 raise ProgrammingError('positional and named parameters cannot be mixed')
 
@@ -616,6 +619,8 @@ class Compiler:
 
     @_compile.register
     def _placeholder(self, node: ast.Placeholder):
+        if not node.name:
+            return EvalConstant(self.parameters[self.positional[id(node)]])
         return EvalConstant(self.parameters[node.name])
 
     @_compile.register
